@@ -125,7 +125,7 @@ fn case_matrix(rng: &mut Rng, keys: &Keys) -> Case {
 
 // ---- mutation trees ----
 #[derive(Clone, Debug)]
-struct Head { auth_like: bool, ent: u64, room: Option<u64>, date: i64, has_node: bool, too_big: bool, old: Option<(Option<u64>, u64)>, edge_dels: u64 }
+struct Head { auth_like: bool, ent: u64, room: Option<u64>, date: i64, has_node: bool, too_big: bool, old: Option<(Option<u64>, u64)>, edge_dels: Vec<u64> }
 #[derive(Clone, Debug)]
 struct Tree { h: Head, subs: Vec<Tree> }
 
@@ -137,7 +137,7 @@ fn gen_head(rng: &mut Rng, nrooms: u64, dates: &[i64]) -> Head {
         Some((oroom, 1 + rng.below(3)))
     } else { None };
     Head { auth_like: rng.chance(1, 40), ent: 1 + rng.below(3), room, date: *rng.pick(dates) + rng.range(-1, 1),
-           has_node: !rng.chance(1, 6), too_big: rng.chance(1, 40), old, edge_dels: rng.below(3) }
+           has_node: !rng.chance(1, 6), too_big: rng.chance(1, 40), old, edge_dels: (0..[0, 0, 0, 1, 1, 2][rng.below(6) as usize]).map(|_| 1 + rng.below(3)).collect() }
 }
 fn gen_tree(rng: &mut Rng, depth: u32, nrooms: u64, dates: &[i64]) -> Tree {
     let h = gen_head(rng, nrooms, dates);
@@ -147,7 +147,7 @@ fn gen_tree(rng: &mut Rng, depth: u32, nrooms: u64, dates: &[i64]) -> Tree {
 fn head_coq(h: &Head) -> String {
     let old = h.old.map(|(r, a)| format!("{{| o_room := {}; o_author := {} |}}", gon(r), gn(a)));
     format!("{{| h_kind := {}; h_ent := {}; h_room := {}; h_date := {}; h_has_node := {}; h_too_big := {}; h_old := {}; h_edge_dels := {} |}}",
-        if h.auth_like { "KAuthLike" } else { "KNormal" }, gn(h.ent), gon(h.room), gz(h.date), gb(h.has_node), gb(h.too_big), gopt(&old), gn(h.edge_dels))
+        if h.auth_like { "KAuthLike" } else { "KNormal" }, gn(h.ent), gon(h.room), gz(h.date), gb(h.has_node), gb(h.too_big), gopt(&old), glist(&h.edge_dels.iter().map(|a| gn(*a)).collect::<Vec<_>>()))
 }
 fn tree_coq(t: &Tree) -> String {
     format!("(MEnt {} {})", head_coq(&t.h), glist(&t.subs.iter().map(tree_coq).collect::<Vec<_>>()))
@@ -172,7 +172,7 @@ fn to_insert_entity(t: &Tree, me: &[u8], keys: &Keys) -> InsertEntity {
     InsertEntity {
         name: entity.clone(),
         node_to_mutate: NodeToMutate { id, date: h.date, entity, room_id, node, old_node, ..Default::default() },
-        edge_deletions: (0..h.edge_dels).map(|_| Edge { src: id, src_entity: "9".into(), label: "33".into(), dest: uid_of(500), cdate: h.date, ..Default::default() }).collect(),
+        edge_deletions: h.edge_dels.iter().map(|a| Edge { src: id, src_entity: "9".into(), label: "33".into(), dest: uid_of(500), cdate: h.date, verifying_key: keys.bytes(*a), ..Default::default() }).collect(),
         sub_nodes,
         ..Default::default()
     }
@@ -227,13 +227,16 @@ fn case_mut(rng: &mut Rng, keys: &Keys, sk: &Ed25519SigningKey) -> Case {
     let ra = RoomAuthorisations { signing_key: Ed25519SigningKey::create_from(&[7u8; 32]), rooms, max_node_size: 2000 };
     let _ = sk;
     let mut v = 0;
+    let now = *rng.pick(&dates) + rng.range(-1, 1);
+    discret::verif_hooks::date_utils::verif_clock::set(now);
     for t in &trees {
         let mut ie = to_insert_entity(t, &meb, keys);
         if let Err(e) = ra.validate_entity_mutation(&mut ie, &meb) { v = verdict(&e); break; }
     }
+    discret::verif_hooks::date_utils::verif_clock::clear();
     let nodes: usize = trees.iter().map(tree_size).sum();
     Case { kind: "mutation".into(),
-           coq: format!("CMut {} {} {}", defs_coq(&defs), gn(me), glist(&trees.iter().map(tree_coq).collect::<Vec<_>>())),
+           coq: format!("CMut {} {} {} {}", defs_coq(&defs), gn(me), gz(now), glist(&trees.iter().map(tree_coq).collect::<Vec<_>>())),
            obs: vec![v], meta: json!({"nodes": nodes, "verdict": v, "rooms": nrooms}) }
 }
 
@@ -241,7 +244,7 @@ fn case_del(rng: &mut Rng, keys: &Keys) -> Case {
     let (defs, rooms, dates, nrooms) = gen_defs(rng, keys, 1);
     let now = *rng.pick(&dates) + rng.range(0, 2) * 1000;
     let ra = RoomAuthorisations { signing_key: Ed25519SigningKey::create_from(&[7u8; 32]), rooms, max_node_size: 2000 };
-    let mut dq = DeletionQuery { nodes: vec![], node_log: vec![], updated_nodes: vec![], edges: vec![], edge_log: vec![] };
+    let mut dq = DeletionQuery { nodes: vec![], node_log: vec![], updated_nodes: vec![], updated_nodes_previous: vec![], edges: vec![], edge_log: vec![] };
     let mut ns = vec![];
     let mut es = vec![];
     for _ in 0..rng.below(3) {
